@@ -544,10 +544,14 @@ fn main() {
     let enumerated = tabs.len();
     tabs.extend(hand_made_tables());
     assert!(tabs.iter().all(refs::table_well_formed));
-    // units: one per (byte kind, spec), then one per (char kind, spec), then one per merge table
+    // special-token configs combined with merge tables: all in the thorough tier, in the quick tier the
+    // default list with prefix / suffix, the one with duplicates and the one with extra tokens
+    let bpe_specs: Vec<usize> = run.pick(vec![1, 2, 3], (0..specs.len()).collect());
+    // units: one per (byte kind, spec), then one per (char kind, spec), then one per (merge table, spec)
     let n_byte = (bytes.len() * specs.len()) as u64;
     let n_char = (chars.len() * specs.len()) as u64;
-    let units = n_byte + n_char + tabs.len() as u64;
+    let n_bpe = (tabs.len() * bpe_specs.len()) as u64;
+    let units = n_byte + n_char + n_bpe;
     if let Some(n) = run.describe_unit() {
         let d = if n < n_byte {
             json!({"tokenizer": kind_json(&bytes[n as usize / specs.len()]), "special": spec_json(&specs[n as usize % specs.len()]), "ids": "every id in [0, vocab_size + 8)"})
@@ -555,8 +559,10 @@ fn main() {
             let m = (n - n_byte) as usize;
             json!({"tokenizer": kind_json(&chars[m / specs.len()]), "special": spec_json(&specs[m % specs.len()]), "ids": "every id in [0, vocab_size + 8)"})
         } else if n < units {
-            let t = &tabs[(n - n_byte - n_char) as usize];
-            json!({"tokenizer": kind_json(&Kind::Bpe { table: t.clone(), max_vocab_size: None }), "max_vocab_size": "None and every value from 0 to 256 + entries + listed special tokens + 2", "special": "every special-token config", "ids": "every id in [0, vocab_size + 8)"})
+            let m = (n - n_byte - n_char) as usize;
+            let t = &tabs[m / bpe_specs.len()];
+            json!({"tokenizer": kind_json(&Kind::Bpe { table: t.clone(), max_vocab_size: None }), "max_vocab_size": "None and every value from 0 to 256 + entries + listed special tokens + 2",
+                   "special": spec_json(&specs[bpe_specs[m % bpe_specs.len()]]), "ids": "every id in [0, vocab_size + 8)"})
         } else {
             json!({"error": "no such unit", "units": units})
         };
@@ -570,7 +576,8 @@ fn main() {
     run.bounds.insert(
         "bpe_tokenizers".into(),
         json!({"table_base_alphabet_bytes": BASE, "max_table_entries": max_entries, "enumerated_well_formed_tables": enumerated, "hand_made_tables": tabs.len() - enumerated,
-               "max_vocab_size": "None and every value in 0..=256+entries+len(tokens)+2", "grid": "tables x max_vocab_size x special configs (use_graphemes false)"}),
+               "max_vocab_size": "None and every value in 0..=256+entries+len(tokens)+2", "special_configs_used": bpe_specs,
+               "grid": "tables x max_vocab_size x special configs (use_graphemes false)"}),
     );
     run.bounds.insert("ids".into(), json!(format!("every id in [0, vocab_size + {MARGIN})")));
     run.bounds.insert("units".into(), json!(units));
@@ -594,15 +601,16 @@ fn main() {
             let m = (unit - n_byte) as usize;
             check(&mut run, &mut tally, &chars[m / specs.len()], &specs[m % specs.len()], &scratch, None);
         } else {
-            let table = &tabs[(unit - n_byte - n_char) as usize];
+            let m = (unit - n_byte - n_char) as usize;
+            let (table, sp) = (&tabs[m / bpe_specs.len()], &specs[bpe_specs[m % bpe_specs.len()]]);
             let file = scratch.path(&format!("table_{unit}.bin"));
             refs::write_merge_file(&file, table);
-            for sp in &specs {
-                let top = 256 + table.len() + sp.tokens.len() + 2;
-                for max_vocab_size in std::iter::once(None).chain((0..=top).map(Some)) {
-                    check(&mut run, &mut tally, &Kind::Bpe { table: table.clone(), max_vocab_size }, sp, &scratch, Some(&file));
+            let top = 256 + table.len() + sp.tokens.len() + 2;
+            for max_vocab_size in std::iter::once(None).chain((0..=top).map(Some)) {
+                check(&mut run, &mut tally, &Kind::Bpe { table: table.clone(), max_vocab_size }, sp, &scratch, Some(&file));
+                if max_vocab_size.unwrap_or(0) % 32 == 0 {
+                    run.tick();
                 }
-                run.tick();
             }
             let _ = std::fs::remove_file(&file);
         }
